@@ -60,7 +60,12 @@ def floors(tier):
          "compression:2site": 12, "leaf:harness": 700, "leaf:random": 200, "leaf:product": 200, "leaf:from_tensor": 120,
          "from_tensor:balance": 35, "from_tensor:first": 35, "from_tensor:last": 35, "nonzero_charge_leaves": 400,
          "complex_leaves": 600, "addn_mixed_sign_or_phase": 25, "matmul_mode_meta": 20, "central:reverse": 4,
-         "central_block_comparisons": 70, "central:add-multiply-rejected": 35}
+         "central_block_comparisons": 70, "central:add-multiply-rejected": 35,
+         "addn:permuted-order": 20, "addn:amplitudes-as-tuple": 10, "addn:amplitudes-as-list": 12, "addn:zero-amplitude": 4,
+         "addself:+": 15, "addself:add3": 6, "addself:add-amps": 5, "addself:sub": 3, "leaf:identity": 30, "twin_checks": 60,
+         "measure:mpo-sum:ops-as-tuple": 15, "measure:mpo-sum:ops-as-list": 15, "defaults:zipper": 7, "defaults:compression_": 2,
+         "defaults:random_mps/random_mpo": 25, "defaults:mps_from_tensor": 6, "defaults:mpo_from_tensor": 3,
+         "opts:D_block-dict-shuffled": 6, "scalar_one": 3}
     for op in ("add", "sub", "addn", "mul", "rmul", "div", "neg", "npmul", "matmul:mpo@mps", "matmul:mpo@mpo", "conj", "T",
                "H", "reverse", "copy"):
         f["op:" + op] = 30
@@ -200,6 +205,9 @@ class Env:
         q = self.draw_q(kind) if q is None else tuple(q)
         if src is None:
             src = rng.choice(("harness", "harness", "harness", "random", "product", "from_tensor"))
+        if src in ("harness", "product") and kind == "mpo" and q == G.zero(self.loc.sym) and at in (None, "first") \
+                and self.at_mode in (None, "first") and rng.random() < 0.08:
+            src, at = "identity", "first"          # the identity operator as product_mpo(I, N)
         if at is None:
             at = self.at_mode or ("last" if (src == "harness" and rng.random() < 0.12) else "first")
         if at == "last":
@@ -223,16 +231,18 @@ class Env:
         """Rough size of the largest bond of the object a node evaluates to (sums add, products multiply)."""
         if node.op == "leaf":
             src, kind = node.par["src"], node.par["kind"]
-            if src == "product":
+            if src in ("product", "identity"):
                 return 1
             if src == "random":
-                return 6
+                return 8
             if src == "from_tensor":
                 return (self.loc.d ** (1 if kind == "mps" else 2)) ** (self.N // 2)
             return self.dmax + 1 if self.loc.sym == "dense" else 4 * self.dmax
         ks = [self.est_bond(k) for k in node.kids]
         if node.op in ("add", "sub", "addn"):
             return sum(ks)
+        if node.op == "addself":
+            return ks[0] * (3 if node.par["how"] in ("add3", "add-amps") else 2)
         if node.op == "matmul":
             return ks[0] * ks[1]
         return ks[0]
@@ -249,7 +259,7 @@ class Env:
         rng = self.rng
         if depth <= 0 or rng.random() < 0.12:
             return self.leaf(kind, q)
-        ops = ["add", "sub", "addn", "mul", "rmul", "div", "neg", "npmul", "copy"]
+        ops = ["add", "sub", "addn", "mul", "rmul", "div", "neg", "npmul", "copy", "addself"]
         if self.allow_mpo:
             ops += ["matmul", "matmul", "matmul"]
         if not normal_only:
@@ -264,12 +274,27 @@ class Env:
             par = {}
             if op == "addn":
                 par["amps"] = None if rng.random() < 0.25 else [rng.choice(SCALARS + (1, 1.0)) for _ in kids]
+                if par["amps"] is not None:
+                    # falsy amplitudes: the term must vanish
+                    par["amps"] = [rng.choice((0, -0.0, 0j)) if rng.random() < 0.07 else a for a in par["amps"]]
+                # user-controlled container: any order of the (state, amplitude) pairs, list or tuple of amplitudes
+                order = list(range(len(kids)))
+                rng.shuffle(order)
+                par["order"] = order
+                par["container"] = rng.choice(("list", "tuple"))
             return Node(op, kids, par, a.ts)
+        if op == "addself":
+            a = self._tree(kind, depth - 1, normal_only, q)
+            how = rng.choice(("+", "+", "add3", "add-amps", "sub") if self.zero_ok else ("+", "+", "add3", "add-amps"))
+            par = {"how": how}
+            if how == "add-amps":
+                par["amps"] = tuple(rng.choice(SCALARS) for _ in range(rng.choice((2, 3))))
+            return Node(op, [a], par, a.ts)
         if op in ("mul", "rmul", "div", "neg", "npmul"):
             a = self._tree(kind, depth - 1, normal_only, q)
             par = {}
             if op in ("mul", "rmul", "div"):
-                par["c"] = rng.choice(SCALARS)
+                par["c"] = rng.choice(SCALARS) if rng.random() > 0.08 else rng.choice((1, 1.0, -1.0, 1 + 0j))
             elif op == "npmul":
                 par["c"] = rng.choice((np.float64(1.75), np.int64(4), np.float64(-0.5), np.int64(-3)))
             if op in ("mul", "rmul") and self.zero_ok and rng.random() < 0.04:
@@ -383,13 +408,38 @@ class Env:
             y = kids[0][0] - kids[1][0]
             d, sc = kids[0][1] - kids[1][1], kids[0][2] + kids[1][2]
         elif op == "addn":
-            amps = par["amps"]
-            y = mps.add(*[k[0] for k in kids], amplitudes=amps)
+            amps, order = par["amps"], par["order"]
+            ys = [kids[i][0] for i in order]
+            if amps is None:
+                y = mps.add(*ys)
+            else:
+                amo = [amps[i] for i in order]
+                y = mps.add(*ys, amplitudes=tuple(amo) if par["container"] == "tuple" else amo)
+                ctx.count("addn:amplitudes-as-" + par["container"])
+                if any(a == 0 for a in amps):
+                    ctx.count("addn:zero-amplitude")
+            if order != sorted(order):
+                ctx.count("addn:permuted-order")
             am = amps if amps is not None else [1] * len(kids)
             d = sum(a * k[1] for a, k in zip(am, kids))
             sc = sum(abs(a) * k[2] for a, k in zip(am, kids))
+            if all(a == 0 for a in am):
+                sc = max(k[2] for k in kids)          # everything vanishes: judged relative to the operands
             if amps is not None and any(isinstance(a, complex) or a < 0 for a in amps):
                 ctx.count("addn_mixed_sign_or_phase")
+        elif op == "addself":
+            a, how = kids[0], par["how"]
+            if how == "+":
+                y, c = a[0] + a[0], 2
+            elif how == "add3":
+                y, c = mps.add(a[0], a[0], a[0]), 3
+            elif how == "add-amps":
+                y, c = mps.add(*([a[0]] * len(par["amps"])), amplitudes=par["amps"]), sum(par["amps"])
+            else:
+                y, c = a[0] - a[0], 0
+            d = a[1] * c
+            sc = a[2] * (sum(abs(x) for x in par["amps"]) if how == "add-amps" else max(abs(c), 2))
+            ctx.count("addself:" + how)
         elif op in ("mul", "rmul", "npmul"):
             c = par["c"]
             y = kids[0][0] * c if op == "mul" else c * kids[0][0]
@@ -397,6 +447,8 @@ class Env:
             if c == 0:
                 ctx.count("scalar_zero")
                 sc = kids[0][2]
+            if c == 1:
+                ctx.count("scalar_one")
         elif op == "div":
             c = par["c"]
             y = kids[0][0] / c
@@ -409,6 +461,15 @@ class Env:
             d, sc = kids[0][1], kids[0][2]
             if y is kids[0][0] or y.A is kids[0][0].A:
                 ctx.violation("copy-not-new:" + par["how"], f"{par['how']}() returned the same object / the same tensor dict")
+            if self.rng.random() < 0.5 and R.nrm(d) > 0:
+                # twins: an in-place sweep on a copy must not move the state its original represents.  (A second copy is
+                # swept: canonize_ gives the bonds the standard signatures, which changes the structural type of conj'd /
+                # reversed objects, so the swept twin is not used further.)
+                getattr(kids[0][0], par["how"])().canonize_(to=self.rng.choice(("first", "last")), normalize=False)
+                self.sigparts.append({"twin": par["how"] + " then canonize_ on the copy"})
+                self.compare(f"original after {par['how']}() and canonize_ of the copy", "twin-original:" + par["how"], kids[0][0], d,
+                             max(sc, R.cond_scale(kids[0][0])), full=False)
+                ctx.count("twin_checks")
         elif op == "conj":
             y = kids[0][0].conj()
             d, sc = np.conj(kids[0][1]), kids[0][2]
@@ -471,6 +532,9 @@ class Env:
         nrp = 1 if kind == "mps" else 2
         truth = None
         ct = None
+        if src == "identity":
+            y = mps.product_mpo(loc.ops.I(), N) if rng.random() < 0.6 else mps.product_mpo([loc.ops.I()] * N)
+            truth = np.eye(loc.d ** N)
         if src == "random":
             loc.cfg.backend.random_seed(par["seed"] % (2 ** 32))
             I = mps.product_mpo(loc.ops.I(), N)
@@ -478,10 +542,14 @@ class Env:
             kw = {"D_total": Dt, "sigma": rng.choice((1, 2)), "dtype": dtype}
             if rng.random() < 0.3:
                 kw["distribution"] = "normal"
+            defaults = dtype == "float64" and q == G.zero(loc.sym) and rng.random() < 0.35
+            if defaults:
+                Dt, kw = 8, {}                      # every optional argument omitted: n=None, D_total=8, float64
+                ctx.count("defaults:random_mps/random_mpo")
             try:
                 if kind == "mps":
                     nq = None if (q == G.zero(loc.sym) and rng.random() < 0.3) else (q[0] if len(q) == 1 and rng.random() < 0.5 else q)
-                    y = mps.random_mps(I, n=nq, **kw)
+                    y = mps.random_mps(I) if defaults else mps.random_mps(I, n=nq, **kw)
                 else:
                     y = mps.random_mpo(I, **kw)
             except yastn.YastnError as e:
@@ -537,7 +605,16 @@ class Env:
             kw = {"canonize": par["canonize"]}
             if par["opts"] is not None:
                 kw["opts_svd"] = dict(par["opts"])
-            if kind == "mps":
+            if kind == "mps" and kw == {"canonize": "last"} and rng.random() < 0.6:
+                # every optional argument omitted.  NB: the docstring says "The default is 'first'", the signature (and the
+                # result) is canonize='last'; the canonical form is judged against the signature, the mismatch is counted
+                y = mps.mps_from_tensor(yt)
+                ctx.count("defaults:mps_from_tensor")
+                ctx.count("note:mps_from_tensor-docstring-default-first-vs-signature-last")
+            elif kind == "mpo" and kw == {"canonize": "balance"} and rng.random() < 0.6:
+                y = mps.mpo_from_tensor(yt)
+                ctx.count("defaults:mpo_from_tensor")
+            elif kind == "mps":
                 y = mps.mps_from_tensor(yt, **kw) if rng.random() < 0.7 else mps.mps_from_tensor(yt, nr_phys=1, **kw)
             else:
                 y = mps.mpo_from_tensor(yt, **kw) if rng.random() < 0.5 else mps.mps_from_tensor(yt, nr_phys=2, **kw)
@@ -671,7 +748,14 @@ def fam_tree(E, idx):
         M = sum(o[1] for o in ops)
         scale = sc * sc2 * sum(o[2] for o in ops)
         exp = np.vdot(d, M @ d2)
-        op_arg = ops[0][0] if meas == "mpo" else [o[0] for o in ops]
+        if meas == "mpo":
+            op_arg = ops[0][0]
+        else:
+            op_arg = [o[0] for o in ops]
+            rng.shuffle(op_arg)                     # user-controlled container: any order, list or tuple
+            if rng.random() < 0.5:
+                op_arg = tuple(op_arg)
+            ctx.count("measure:mpo-sum:ops-as-" + type(op_arg).__name__)
         fn = mps.vdot if rng.random() < 0.3 else mps.measure_mpo
         got = guarded_mpo(E, lambda: fn(y, op_arg, y2), [o[0] for o in ops])
         number_check(E, "measure_mpo" + (":sum" if nops > 1 else "") + (":mpo-state" if kind == "mpo" else ""), got, exp, scale,
@@ -921,7 +1005,19 @@ def fam_zipper(E, idx):
     for y in (a[0], b[0]):
         if y.factor != 1:
             ctx.count("factor_nonunit_operands")
-    out = mps.zipper(a[0], b[0], opts_svd=opts, normalize=normalize, return_discarded=rd)
+    if rng.random() < 0.15:
+        # per-sector limits given as a dictionary built in shuffled insertion order (non-binding values)
+        ts = sorted(R.reach_sets(loc, N, "mpo")[0] | {G.add(loc.sym, (x, z)) for x in R.reach_sets(loc, N, "mpo")[0]
+                                                      for z in set().union(*R.reach_sets(loc, N, kindb))})
+        ts = ts[:400]
+        rng.shuffle(ts)
+        opts = {"D_block": {t: 10000 for t in ts}, "D_total": 100000}
+        ctx.count("opts:D_block-dict-shuffled")
+    if normalize and not rd and rng.random() < 0.6:
+        out = mps.zipper(a[0], b[0], opts_svd=opts)          # normalize / return_discarded omitted
+        ctx.count("defaults:zipper")
+    else:
+        out = mps.zipper(a[0], b[0], opts_svd=opts, normalize=normalize, return_discarded=rd)
     if rd:
         out, disc = out
         if not ctx.margin("zipper:discarded-nonbinding", abs(disc), 1e-9):
@@ -1048,8 +1144,11 @@ def fam_compression(E, idx):
         kw["Schmidt_tol"] = 1e-14
     if rng.random() < 0.3:
         kw["overlap_tol"] = 1e-15
-    E.sig = ("compression", form, method, start, normalize, kind, tuple(sorted(opts or ())))
-    E.sample = {"compression": {"form": form, "method": method, "start": start, "opts": opts, "normalize": normalize}}
+    if method == "1site" and normalize and rng.random() < 0.4:
+        kw = {}                                       # pure defaults: method='1site', max_sweeps=1, normalize=True
+        ctx.count("defaults:compression_")
+    E.sig = ("compression", form, method, start, normalize, kind, tuple(sorted(opts or ())), tuple(sorted(kw)))
+    E.sample = {"compression": {"form": form, "method": method, "start": start, "opts": opts, "normalize": normalize, "kwargs": sorted(kw)}}
     try:
         out = mps.compression_(psi, target, **kw)
     except ValueError as e:
@@ -1133,6 +1232,7 @@ def fam_central(E, idx):
 
     E.sigparts.append({"central": {"site": n, "to": to}})
     look(f"orthogonalize_site_({n}, {to}, normalize=False)", "orthogonalize_site_", y, d)
+    cs0 = cscale
     op = rng.choice(("reverse", "reverse", "conj", "T", "H", "copy", "clone", "shallow_copy", "mul", "neg", "div"))
     c = rng.choice(SCALARS)
     E.sigparts.append({"op-with-central-block": op})
@@ -1164,6 +1264,12 @@ def fam_central(E, idx):
     z2 = z.shallow_copy()
     z2.absorb_central_(to=rng.choice(("first", "last")))
     E.compare(f"{op} -> absorb_central_", "central-absorbed", z2, e, cscale, full=True, ct=10 * CT)
+    # twins: absorbing / sweeping on the shallow copy must not move the object it was copied from, nor the original
+    cscale = max(cscale, cs0)
+    z2.canonize_(to=rng.choice(("first", "last")), normalize=False)
+    look(f"{op}: twin after absorb_central_ + canonize_ on its shallow copy", "twin", z, e)
+    look("original after operations on its copies", "twin", y, d)
+    ctx.count("twin_checks")
     # documented rejections
     try:
         if rng.random() < 0.5:
